@@ -6,7 +6,7 @@ export GOFLAGS=-mod=mod GOPROXY=off GOSUMDB=off GOTOOLCHAIN=local
 name="$1"; shift
 wt=$(mktemp -d /tmp/seedwt-XXXXXX); vd=$(mktemp -d /tmp/seedvd-XXXXXX)
 git -C /repo worktree add --detach "$wt" HEAD -q -f >/dev/null 2>&1 || { rmdir "$wt"; git -C /repo worktree add --detach "$wt" HEAD -q; }
-cp /verif/known_findings.json "$vd/"
+cp /verif/known_findings.json /verif/bounded.json "$vd/"; ln -s /verif/replay "$vd/replay"
 if ! git -C "$wt" apply /verif/seeded/$name/patch.diff; then echo "PATCH-FAILED $name"; fi
 for p in "$@"; do
   out=$(/verif/bin/govc check --repo "$wt" --verif "$vd" -q "$p" 2>&1 | grep -v "^WARNING")
